@@ -445,6 +445,15 @@ fn local_stream(ctx: &Ctx, stream: u64, n: u64, max_k: u32, workers: usize) -> (
                 let mut v = serde_json::to_value(&d.scenario).unwrap();
                 if let Some(ev) = v.get_mut("events").and_then(|e| e.as_array_mut()) {
                     ev.truncate(10);
+                    for e in ev.iter_mut() {
+                        let total = e.get("batch").and_then(|b| b.as_array()).map(|b| b.len()).unwrap_or(0);
+                        if total > 8 {
+                            if let Some(b) = e.get_mut("batch").and_then(|b| b.as_array_mut()) {
+                                b.truncate(8);
+                            }
+                            e["batch_frames_total"] = json!(total);
+                        }
+                    }
                 }
                 acc.samples.push(json!({"run": idx, "stream": stream, "events_total": d.events, "knobs_a": knob_key(&d.scenario.setup), "knobs_b": knob_key(&d.setup_b), "digest": d.a, "scenario_head": v}));
             }
